@@ -223,6 +223,11 @@ type scell struct {
 type shadowScreen struct {
 	rows     [][]scell
 	problems []string
+	// regions announced at a moment when the row could not be read back cell by cell (grapheme mode: a row
+	// that holds, in the middle of an operation, text that segments into other cells); read again when the
+	// operation is over
+	deferred []termemu.Region
+	final    bool
 }
 
 func lineCells(l termemu.Line, mode termemu.TextReadMode) ([]scell, bool) {
@@ -296,6 +301,10 @@ func (sh *shadowScreen) refresh(vt *termemu.VerifTerm, r termemu.Region) {
 		// that cuts a wide glyph is not returned cell-aligned: known finding, see KF-C11-cut-glyph)
 		cells, ok := lineCells(t.StyledLine(0, w, y), vt.Mode())
 		if !ok || len(cells) != w {
+			if !sh.final && vt.Mode() == termemu.TextReadModeGrapheme {
+				sh.deferred = append(sh.deferred, termemu.Region{X: r.X, X2: r.X2, Y: y, Y2: y + 1})
+				continue
+			}
 			sh.problems = append(sh.problems, fmt.Sprintf("StyledLine(0,%d,%d) gave %d cells ok=%v", w, y, len(cells), ok))
 			continue
 		}
@@ -615,6 +624,20 @@ func (r *runner) observe() []string {
 			r.vt.T.Unlock()
 		}
 		r.fe.shadow.problems = nil
+	}
+	if len(r.fe.shadow.deferred) > 0 {
+		d := r.fe.shadow.deferred
+		r.fe.shadow.deferred = nil
+		if !r.crashed && !r.wedged && r.vt.T.TryLock() {
+			r.fe.shadow.final = true
+			for _, reg := range d {
+				if reg.X2 <= act.W && reg.Y2 <= act.H {
+					r.fe.shadow.refresh(r.vt, reg)
+				}
+			}
+			r.fe.shadow.final = false
+			r.vt.T.Unlock()
+		}
 	}
 	if !r.crashed && !r.wedged && act.RowsOK {
 		for _, pr := range r.fe.shadow.problems {
